@@ -251,6 +251,9 @@ func (E *Engine) encodeOnce(name string, level int, cands map[CandKey]bool) (res
 					fr.specError(c, err)
 					continue
 				}
+				if hasTag(c, "assumed") {
+					fx.note("ASSUMED without proof (precondition tagged assumed, not established by callers): %s: %s", name, c.Src)
+				}
 				enc.Assume(t)
 			}
 		}
@@ -284,6 +287,10 @@ func (E *Engine) encodeOnce(name string, level int, cands map[CandKey]bool) (res
 				if hasTag(c, "ghost") {
 					// definitional clause of ghost state/functions: assumed at call sites, nothing to prove here
 					fx.note("ghost definition (assumed at call sites): %s: %s", name, c.Src)
+					continue
+				}
+				if hasTag(c, "assumed") {
+					fx.note("ASSUMED without proof (clause tagged assumed): %s: %s", name, c.Src)
 					continue
 				}
 				t, err := ev.EvalBool(c.E)
@@ -341,7 +348,7 @@ func (E *Engine) LevelsOf(name string) []int {
 		return []int{0}
 	}
 	need := map[int]bool{0: true}
-	for _, g := range [][]*Clause{ct.Ensures, ct.Preserves, ct.LoopInv} {
+	for _, g := range [][]*Clause{ct.Ensures, ct.Preserves, ct.LoopInv, ct.AtCalls} {
 		for _, c := range g {
 			need[facetLevel[c.Facet]] = true
 		}
